@@ -69,7 +69,14 @@ func (spkd SetPubKeyDecorator) AnteHandle(ctx sdk.Context, tx sdk.Tx, simulate b
 		if err != nil {
 			return ctx, err
 		}
+		// every signer must come with the public key its address is derived from
+		if len(pubKeys) != len(signers) {
+			return ctx, sdkerrors.ErrInvalidPubKey.Wrapf("invalid number of pubKeys; expected: %d, got %d", len(signers), len(pubKeys))
+		}
 		for i, pk := range pubKeys {
+			if pk == nil {
+				return ctx, sdkerrors.ErrInvalidPubKey.Wrapf("pubKey is missing for signer index: %d", i)
+			}
 			// addrFromPubk, err := sdk.AccAddressFromBech32(sdk.AccAddress(pk).String())
 			if !bytes.Equal(signers[i], pk.Address()) {
 				return ctx, sdkerrors.ErrInvalidPubKey.Wrapf("pubKey does not match signer address %s with signer index: %d", signers[i], i)
@@ -275,8 +282,17 @@ func (svd SigVerificationDecorator) AnteHandle(ctx sdk.Context, tx sdk.Tx, simul
 		if err != nil {
 			return ctx, err
 		}
+		signerAddrs := sigTx.GetSigners()
+		// check that signer length, pubKey length and signature length are the same,
+		// a transaction without any signature must not pass
+		if len(sigs) == 0 || len(sigs) != len(signerAddrs) || len(pubKeys) != len(signerAddrs) {
+			return ctx, sdkerrors.ErrUnauthorized.Wrapf("invalid number of signer;  expected: %d, got %d signatures and %d pubKeys", len(signerAddrs), len(sigs), len(pubKeys))
+		}
 		for i, sig := range sigs {
 			pubKey := pubKeys[i]
+			if pubKey == nil || !bytes.Equal(pubKey.Address(), signerAddrs[i]) {
+				return ctx, sdkerrors.ErrInvalidPubKey.Wrapf("pubKey does not match signer address %s with signer index: %d", signerAddrs[i], i)
+			}
 			// TODO: is it necessary to support multi-sign ?
 			data, ok := sig.Data.(*signing.SingleSignatureData)
 			if !ok {
@@ -286,7 +302,9 @@ func (svd SigVerificationDecorator) AnteHandle(ctx sdk.Context, tx sdk.Tx, simul
 			if err != nil {
 				return ctx, err
 			}
-			pubKey.VerifySignature(bytesToSign, data.Signature)
+			if !simulate && !pubKey.VerifySignature(bytesToSign, data.Signature) {
+				return ctx, sdkerrors.ErrUnauthorized.Wrapf("signature verification failed for oracle create-price tx; please verify chain-id (%s)", ctx.ChainID())
+			}
 		}
 
 		return next(ctx, tx, simulate)
